@@ -419,6 +419,11 @@ func blockContainerLayout(context *layoutContext, box_ Box, bottomSpace pr.Float
 			adjoiningMargins = &adjoiningMarginsV
 			if !childThrough {
 				allInFlowCollapsedThrough = false
+			} else if allInFlowCollapsedThrough && collapsingWithChildren {
+				// Both margins of leading collapsed-through children are part of the top
+				// margin of this box (and of the ancestors that share the list).
+				*thisBoxAdjoiningMargins = adjoiningMarginsV
+				adjoiningMargins = thisBoxAdjoiningMargins
 			}
 
 			if newMaxLines != -1 && maxLines != -1 {
